@@ -70,9 +70,10 @@ def make_source(insts, entity=True):
     return "\n".join(L) + "\n"
 
 
-def valuations(ins):
+def valuations(ins, mode="full"):
+    """every input valuation (mode 'full') / the structured value set of the wide stratum"""
     names = [n for n, _, _ in ins]
-    for vals in itertools.product(*[range(1 << w) for _, _, w in ins]):
+    for vals in itertools.product(*G.port_values(ins, mode)):
         yield dict(zip(names, vals))
 
 
@@ -164,7 +165,7 @@ def py_sweep(fn, it, stat):
     """all valuations of one instance at the Python level"""
     n_exc = 0
     n_ok = 0
-    for v in valuations(it["ins"]):
+    for v in valuations(it["ins"], it.get("vals", "full")):
         exp = expected(it, v)
         if exp is None:
             continue
@@ -208,7 +209,7 @@ def hw_sweep(vhdl, insts, idxs, stats):
     ins = insts[0]["ins"]
     ports = [[f"q{j}_{m}" for m in range(len(it["outs"]))] for j, it in zip(idxs, insts)]
     masks = [[(1 << w) - 1 for _, w in it["outs"]] for it in insts]
-    for v in valuations(ins):
+    for v in valuations(ins, insts[0].get("vals", "full")):
         sim.set_many({"p_" + n: x for n, x in v.items()})
         o = sim.outputs()
         for it, st, ps, ms in zip(insts, stats, ports, masks):
@@ -477,20 +478,23 @@ def work(task):
 def build_tasks(insts, py_cap, max_per_entity=40, py_budget=25_000):
     by_sig = {}
     for it in insts:
-        by_sig.setdefault(it["ins"], []).append(it)
+        by_sig.setdefault((it["ins"], it.get("vals", "full")), []).append(it)
     tasks = []
-    for sig, group in by_sig.items():
+    for (sig, mode), group in by_sig.items():
         bits = sum(w for _, _, w in sig)
-        do_py = bits <= py_cap
+        nv = G.n_valuations(sig, mode)
+        do_py = mode == "wide" or bits <= py_cap
         per = max_per_entity
         if do_py:
-            per = max(1, min(per, py_budget >> bits))
-        if bits >= 14:
+            per = max(1, min(per, py_budget // nv))
+        if nv >= 1 << 14:
             per = min(per, 12)
+        if mode == "wide" and bits > 60:
+            per = min(per, 15)      # wide entities compile slowly
         for i in range(0, len(group), per):
             chunk = group[i:i + per]
-            cost = len(chunk) * (1 << bits) * (1.0 if do_py else 0.08)
-            tasks.append({"kind": "group", "insts": chunk, "py": do_py, "hw": True, "cost": cost, "bits": bits})
+            cost = len(chunk) * nv * (1.0 if do_py else 0.08) * (3 if mode == "wide" else 1)
+            tasks.append({"kind": "group", "insts": chunk, "py": do_py, "hw": True, "cost": cost, "bits": bits, "nv": nv})
     return tasks
 
 
